@@ -89,6 +89,12 @@ def o_component(a):
         pd, pa = (lambda E_, t_=None, ra_=None, dec_=None: 0.1 + 0.08 * E_), (lambda E_, t_=None, ra_=None, dec_=None: 0.2 * E_ - 0.5)
     elif kind == 'time':
         pd, pa = (lambda E_, t_=None, ra_=None, dec_=None: 0.2 + 0.6 * t_ / 1000.), (lambda E_, t_=None, ra_=None, dec_=None: -1. + 2. * t_ / 1000.)
+    elif kind == 'clip':          # exactly zero below 3 keV, rising above: some events unpolarized, the others not
+        pd, pa = (lambda E_, t_=None, ra_=None, dec_=None: numpy.clip(0.15 * (E_ - 3.), 0., 1.)), constant(a['pa'])
+    elif kind == 'step_time':     # unpolarized first half, polarized second half
+        pd, pa = (lambda E_, t_=None, ra_=None, dec_=None: numpy.where(t_ < 500., 0., 0.7)), constant(a['pa'])
+    elif kind == 'zero':
+        pd, pa = constant(0.), constant(a['pa'])
     else:
         raise ValueError(kind)
     src = xPointSource('p', 30., 45., power_law(1., 2.), pd, pa)
@@ -104,6 +110,44 @@ def o_component(a):
     # u is a permutation of a midpoint grid, but it is paired with random (E, t): the residual is statistical, ~ sqrt(2/n)
     tol = 6.5 * math.sqrt(2. / n)
     return abs(q - eq) < tol and abs(uu - eu) < tol, dict(mean_q=q, expected_q=eq, mean_u=uu, expected_u=eu, tolerance=tol)
+
+
+def o_periodic(a):
+    """a periodic source whose polarization depends on the pulse phase: in every phase bin the mean event Stokes parameters are
+    ⟨μ(E) P(phase) cos 2PA(phase)⟩ evaluated at the fold of the event times (so the models must be evaluated at the phase, not at the time)"""
+    import simdrive
+    from ixpeobssim.irf import load_irf_set
+    from ixpeobssim.srcmodel import import_roi
+    from ixpeobssim.srcmodel.roi import xPeriodicPointSource
+    cfg = simdrive.config_path('toy_periodic_source.py')
+    roi = import_roi(cfg)
+    src = [s for s in roi.values() if isinstance(s, xPeriodicPointSource)][0]
+    src.polarization_degree = lambda E, ph, ra=None, dec=None: 0.5 + 0.4 * numpy.cos(2 * numpy.pi * ph) + 0. * E
+    src.polarization_angle = lambda E, ph, ra=None, dec=None: numpy.radians(30. + 40. * numpy.sin(2 * numpy.pi * ph)) + 0. * E
+    start = a['start']
+    kwargs = simdrive.sim_kwargs(cfg, 'unused.fits', gtis=[(start, start + 0.4 * a['T']), (start + 0.5 * a['T'], start + a['T'])], start_met=start, duration=a['T'])
+    irf_set = load_irf_set(kwargs['irfname'], a['du'])
+    numpy.random.seed(a['seed'])
+    el = src._rvs_seed_event_list(roi, irf_set, **kwargs)
+    t = numpy.array(el.time(), dtype=float)
+    phi = numpy.array(el['PHI'], dtype=float)
+    E = numpy.array(el['MC_ENERGY'], dtype=float)
+    ph = src.ephemeris.fold(t, start)
+    m = irf_set.modf(E) * src.polarization_degree(E, ph)
+    A = src.polarization_angle(E, ph)
+    worst, bad = 0., []
+    for b in range(8):
+        k = (ph >= b / 8.) & (ph < (b + 1) / 8.)
+        n = int(k.sum())
+        if n < 200:
+            continue
+        tol = 6.5 * math.sqrt(2. / n)
+        dq = abs(float(numpy.mean(2 * numpy.cos(2 * phi[k]))) - float(numpy.mean(m[k] * numpy.cos(2 * A[k]))))
+        du_ = abs(float(numpy.mean(2 * numpy.sin(2 * phi[k]))) - float(numpy.mean(m[k] * numpy.sin(2 * A[k]))))
+        worst = max(worst, dq / tol, du_ / tol)
+        if dq > tol or du_ > tol:
+            bad.append(dict(phase_bin=b, events=n, dq=dq, du=du_, tolerance=tol))
+    return not bad and len(t) > 2000, dict(events=len(t), worst_over_tolerance=worst, bins_off=bad[:3])
 
 
 def o_file(a):
@@ -141,7 +185,7 @@ def o_file(a):
     return not bad, dict(violated=bad, PD=pd, PD_ERR=pde, PA=pa, PA_ERR=pae, input=[pd0, pa0], events=len(phi))
 
 
-ORACLES = dict(table=o_table, push=o_push, component=o_component, file=o_file)
+ORACLES = dict(table=o_table, push=o_push, component=o_component, file=o_file, periodic=o_periodic)
 
 
 def run_oracle(chk, name, a, nontrivial=True):
@@ -177,9 +221,10 @@ def explore(chk, budget=1):
         if i % 6 == 3:
             a.update(pd=1, pd_scalar=True)
         run_oracle(chk, 'push', a, nontrivial=pd not in (0.,))
-    for kind in ('const', 'const_int', 'energy', 'time'):
+    for kind in ('const', 'const_int', 'energy', 'time', 'clip', 'step_time', 'zero'):
         run_oracle(chk, 'component', dict(kind=kind, irf=names[0], du=int(g.integers(1, 4)), pd=float(g.uniform(0.2, 0.9)), pa=float(g.uniform(-1.5, 1.5)), n=200000,
                                           seed=int(g.integers(1, 10 ** 6))), nontrivial=kind != 'const')
+    run_oracle(chk, 'periodic', dict(start=float(g.choice([0., 1.2e8])), T=20000., du=int(g.integers(1, 4)), seed=int(g.integers(1, 10 ** 6))))
     run_oracle(chk, 'file', dict(du=int(g.integers(1, 4)), seed=int(g.integers(1, 10 ** 6)), duration=1500. if quick else 6000.))
 
 
@@ -201,5 +246,6 @@ def replay(body):
         ok, obs = ORACLES[r['oracle']](r['args'])
         out('oracle %s on the recorded input: %s %s' % (r['oracle'], 'holds' if ok else 'FAILS', obs))
         return 0 if ok else 1
-    out(body['what'])
-    return 1
+    import sys
+    import common
+    return common.replay_rerun(sys.modules[__name__], body)
